@@ -177,7 +177,7 @@ fn alphabet(target: u8) -> Vec<Vec<u8>> {
         T_REQUEST => vec![s(b"G"), s(b"E"), s(b"T"), s(b" "), s(b"/"), s(b":"), s(b"\r"), s(b"\n"), s(b"0"), s(b"9"), s(&[0xc3]), s(&[0xa9]), s(&[0xff])],
         T_RESPONSE => vec![s(b"HTTP/1.1"), s(b"200"), s(b" "), s(b":"), s(b"\r"), s(b"\n"), s(b"0"), s(b"9"), s(b"a"), s(&[0xc3]), s(&[0xa9]), s(&[0xff]), s(b"Transfer-Encoding: chunked\r\n")],
         T_FRAME | T_MESSAGE | T_MESSAGE_NB => vec![s(&[0x81]), s(&[0x01]), s(&[0x89]), s(&[0x88]), s(&[0x00]), s(&[0x80]), s(&[0x7e]), s(&[0x7f]), s(&[0xfe]), s(&[0xff]), s(&[0x05]), s(&[0x41]), s(&[0x83])],
-        T_JSON => vec![s(b"{"), s(b"}"), s(b"["), s(b"]"), s(b":"), s(b","), s(b"\""), s(b"\\"), s(b"u"), s(b"0"), s(b"-"), s(b"e"), s("é".as_bytes()), s(b"\\ud800")],
+        T_JSON => vec![s(b"{"), s(b"}"), s(b"["), s(b"]"), s(b":"), s(b","), s(b"\""), s(b"\\"), s(b"u"), s(b"0"), s(b"-"), s(b"e"), s("é".as_bytes()), s(b"\\ud800"), s(b"\\udc00")],
         T_CONFIG => vec![s(b"server {"), s(b"\n"), s(b"}"), s(b"{"), s(b" "), s(b"route "), s(b"host "), s(b"\""), s(b"size"), s(b"5"), s(b"G"), s("é".as_bytes()), s(b"#"), s(b"a")],
         _ => vec![],
     }
